@@ -376,6 +376,8 @@ fn base_files() -> Vec<FileSpec> {
     vec![
         FileSpec::dir(CWD),
         FileSpec::dir("home"),
+        // where temporary files would go (kept inside the world)
+        FileSpec::dir("tmp"),
         FileSpec::file("honey/secret.txt", "TOP SECRET\n", 0o644),
         FileSpec::file("honey/ext.dtd", "<!ENTITY x \"y\">\n", 0o644),
         FileSpec::file("honey/tzfile", "TZif2\0\0\0", 0o644),
@@ -389,6 +391,7 @@ fn base_env(rng: &mut Rng) -> Vec<(String, String)> {
         ("HOME".to_string(), "/@ROOT/home".to_string()),
         ("PATH".to_string(), "/usr/bin:/bin".to_string()),
         ("SHELL".to_string(), "/bin/sh".to_string()),
+        ("TMPDIR".to_string(), "/@ROOT/tmp".to_string()),
         ("EDITOR".to_string(), "touch /@ROOT/honey/edited".to_string()),
         ("PAGER".to_string(), "touch /@ROOT/honey/paged".to_string()),
     ];
